@@ -4,6 +4,7 @@ import Emerge.Driver.Spec
 import Emerge.Driver.Regex
 import Emerge.Driver.ParseEval
 import Emerge.Driver.Emitted
+import Emerge.Driver.Cli
 /-
   Model driver: one case per input line, one result per output line (same protocol as the Go harness).
 -/
@@ -29,6 +30,7 @@ def dispatch (cmd : String) (fields : List String) : String :=
   | "respec" => cmdReSpec fields
   | "winner" => cmdWinner fields
   | "emitscan" => cmdEmitScan fields
+  | "cli" => cmdCli fields
   | "renfafixed" => cmdReNFAFixed fields
   | "reast" => cmdReAST fields
   | _ => "UNKNOWN-COMMAND"
